@@ -26,8 +26,8 @@ PLANS = {
                 quick=[("close", 300, ""), ("lag", 100, ""), ("ovfstall", 1, "mode=close")],
                 thorough=[("close", 5000, ""), ("lag", 1500, ""), ("ovfstall", 12, "")]),
     "C08": dict(engine=INO, mc=["MC_Events"],
-                quick=[("spell", 240, ""), ("burst", 24, "ks=17+240+700"), ("rand", 150, "")],
-                thorough=[("spell", 4000, ""), ("burst", 300, "ks=17+240+2049"), ("rand", 3000, "")]),
+                quick=[("spell", 240, ""), ("burst", 24, "ks=17+240+700"), ("rand", 150, ""), ("repoint", 80, "")],
+                thorough=[("spell", 4000, ""), ("burst", 300, "ks=17+240+2049"), ("rand", 3000, ""), ("repoint", 1000, "")]),
     "C09": dict(engine=INO, mc=["MC_WatchSet", "MC_Events"],
                 quick=[("lag", 200, ""), ("endwatch", 200, ""), ("rand", 150, ""), ("wsrand", 100, ""), ("repoint", 80, "")],
                 thorough=[("lag", 4000, ""), ("endwatch", 4000, ""), ("rand", 3000, ""), ("wsrand", 2000, ""), ("repoint", 1000, "")]),
